@@ -2,35 +2,7 @@
 Common definitions for the equalities between the translated functions (tools/rs2lean2.py) and the model.
 (split out of GenRegs2.lean so that an equality that no longer holds blocks only the properties that rely on it)
 -/
-import Qvnt.Generated.Regs
-import Qvnt.Lemmas.GenCore
-import Qvnt.Lemmas.Queue
-
-set_option linter.unusedSectionVars false
-
-namespace Qvnt.Gen2
-open Qvnt Qvnt.Gen
-
-variable {R : Type}
-
-/-- the model's register as the translated record (buffer as a list) -/
-def ofModel (r : QReg R) : QRegG R := ⟨r.psi.toList, r.qNum, r.qMask⟩
-
-theorem shl_one (n : Nat) (h : n < 64) : shlW 64 1 n = 2 ^ n := by
-  unfold shlW
-  rw [Nat.one_mul, Nat.mod_eq_of_lt h, Nat.mod_eq_of_lt (Nat.pow_lt_pow_right (by decide) h)]
-
-theorem mask_eq (n : Nat) (h : n < 64) : wrapSub 64 (2 ^ n) 1 = 2 ^ n - 1 := by
-  unfold wrapSub
-  have h2 : 2 ^ n < 2 ^ 64 := Nat.pow_lt_pow_right (by decide) h
-  have h3 : 0 < 2 ^ n := Nat.two_pow_pos n
-  rw [Nat.mod_eq_of_lt h2]
-  have : (1 : Nat) % 2 ^ 64 = 1 := by decide
-  rw [this]
-  have e : 2 ^ n + 2 ^ 64 - 1 = (2 ^ n - 1) + 2 ^ 64 := by omega
-  rw [e, Nat.add_mod_right, Nat.mod_eq_of_lt (by omega)]
-theorem mapIdx_getElem {α : Type} (l : List α) (f : Nat → α → α) (i : Nat) (h : i < (Rs.mapIdx l f).length) :
-    (Rs.mapIdx l f)[i] = f i (l[i]'(by simpa [Rs.mapIdx, Rs.enumerate] using h)) := by
-  simp [Rs.mapIdx, Rs.enumerate]
-
-end Qvnt.Gen2
+import Qvnt.Lemmas.GenPre.ofModel
+import Qvnt.Lemmas.GenPre.shl_one
+import Qvnt.Lemmas.GenPre.mask_eq
+import Qvnt.Lemmas.GenPre.mapIdx_getElem
